@@ -207,7 +207,7 @@ class T1Font(object):
                         lines.append(f"/Subrs {len(subrs)} array".encode("ascii"))
                         for i, subr_bin in enumerate(subrs):
                             encrypted_subr, R = eexec.encrypt(
-                                bytesjoin([char_IV[:lenIV], subr_bin]), 4330
+                                bytesjoin([char_IV.ljust(lenIV, char_IV[:1])[:lenIV], subr_bin]), 4330
                             )
                             lines.append(
                                 bytesjoin(
@@ -233,7 +233,7 @@ class T1Font(object):
                 for glyph_name, char_bin in eexec_dict["CharStrings"].items():
                     char_bin.compile()
                     encrypted_char, R = eexec.encrypt(
-                        bytesjoin([char_IV[:lenIV], char_bin.bytecode]), 4330
+                        bytesjoin([char_IV.ljust(lenIV, char_IV[:1])[:lenIV], char_bin.bytecode]), 4330
                     )
                     lines.append(
                         bytesjoin(
